@@ -163,6 +163,28 @@ func tryStartPool(host string, extra ...string) (*poolProc, error) {
 	return nil, fmt.Errorf("pool binary did not start listening (last attempt on %s); stderr: %v", last.addr, last.log())
 }
 
+// died reports whether the pool process has ended although the test did not stop it.
+func (p *poolProc) died() bool {
+	if p == nil || p.exited == nil {
+		return false
+	}
+	select {
+	case <-p.exited:
+		return true
+	default:
+		return false
+	}
+}
+
+// dialFailure words a failed dial: an infrastructure problem ("[setup failed]": the port was taken, the machine is
+// out of descriptors) unless the pool process itself is gone - then the pool has crashed, which is a finding.
+func (p *poolProc) dialFailure(err error) string {
+	if p.died() {
+		return fmt.Sprintf("the pool process has died (it was not stopped by the test); dial: %v\npool log tail:\n%s", err, tailLines(p.log(), 25))
+	}
+	return fmt.Sprintf("[setup failed] dial: %v", err)
+}
+
 func (p *poolProc) log() string {
 	p.mu.Lock()
 	defer p.mu.Unlock()
@@ -361,6 +383,10 @@ func TestC09Binary(t *testing.T) {
 				h := rapid.IntRange(0, nHosts-1).Draw(rt, "host")
 				id := nodeIdent(h)
 				req := pool.ConnectRequest{VipnodeVersion: "verif", NodeInfo: ethnode.UserAgent{Version: "Geth/verif", Kind: ethnode.Geth, IsFullNode: true, Network: 1}}
+				if rapid.Bool().Draw(rt, "httpConnectNamesAddress") {
+					// ... naming the address it wants advertised (nothing else about the request changes)
+					req.NodeURI = "enode://" + id.nodeID + "@203.0.113.5:30303"
+				}
 				nn := time.Now().UnixNano()
 				var resp pool.ConnectResponse
 				ctx, cancel := context.WithTimeout(ctxAll, 10*time.Second)
@@ -373,7 +399,7 @@ func TestC09Binary(t *testing.T) {
 				connSeq++
 				a, err := dialWS(p.addr, nodeIdent(h), connSeq)
 				if err != nil {
-					fail("[setup failed] dial: %v", err)
+					fail("%s", p.dialFailure(err))
 				}
 				ctx, cancel := context.WithTimeout(ctxAll, 10*time.Second)
 				err = a.connectHost(ctx)
